@@ -94,6 +94,7 @@ def run(e: Engine, rep: Report):
     n12(e, rep)
     n13(e, rep)
     n14(e, rep)
+    n15(e, rep)
     rep.floor('N1', 9, 'relay implementations / set sites')
     rep.floor('N2', 12, 'client command sites')
 
@@ -1928,3 +1929,88 @@ def _n14_function(e, rep, rule, m):
                   loc=m.loc(site), reason='not a fixed entry of a '
                   'collection of per-recipient replies')
     return n
+
+
+# -------------------------------------------------------------------- N15
+def n15(e: Engine, rep: Report, rule: str = 'N15'):
+    """Reply.command is bytes on the SMTP side and a str where the HTTP relay
+    parses it out of a header.  The relay-error constructors get both: a
+    bytes-only (or str-only) method on it must sit behind a type test, or the
+    error that should report the refusal dies with AttributeError - which the
+    client's catch-all turns into a transient "Delivery failed"."""
+    rep.rule(rule, 'the relay-error constructors apply bytes-only / '
+             'str-only methods (decode / encode) to reply.command only '
+             'behind an isinstance test of it, as long as a relay builds '
+             'replies whose command is not a bytes literal (the HTTP relay: '
+             'header text)')
+    # producers: Reply(code, message, <command>) in the relay modules
+    producers = []
+    for f in e.p.functions.values():
+        if not f.module.name.startswith('slimta.relay'):
+            continue
+        for c in walk_own(f.node):
+            if isinstance(c, ast.Call) and \
+                    ast.unparse(c.func).rpartition('.')[2] == 'Reply':
+                cmd = c.args[2] if len(c.args) >= 3 else None
+                for k in c.keywords:
+                    if k.arg == 'command':
+                        cmd = k.value
+                if cmd is None or (isinstance(cmd, ast.Constant) and
+                                   isinstance(cmd.value, (bytes,
+                                                          type(None)))):
+                    continue
+                txt = ast.unparse(cmd)
+                if 'current_command' in txt:
+                    continue          # the relay client's own bytes marker
+                producers.append((f, c, txt))
+    n = 0
+    for cq in ['slimta.relay.smtp.SmtpRelayError'] + list(
+            e.p.subclasses('slimta.relay.smtp.SmtpRelayError')):
+        c = e.p.classes.get(cq)
+        init = c.methods.get('__init__') if c is not None else None
+        if init is None:
+            continue
+        ctx = e.method_ctx(cq, '__init__')
+        g = e.build(ctx, raises=lambda b, nn, r: set())
+        fx = e.facts(g)
+        rep.functions.add(init.qname)
+        cmd_names = {t.id for a in walk_own(init.node)
+                     if isinstance(a, ast.Assign) and
+                     'command' in ast.unparse(a.value)
+                     for t in a.targets if isinstance(t, ast.Name)}
+        for nd in g.calls():
+            f = nd.ast.func
+            if not (isinstance(f, ast.Attribute) and
+                    f.attr in ('decode', 'encode')):
+                continue
+            rv = f.value
+            if not ((isinstance(rv, ast.Name) and rv.id in cmd_names) or
+                    'command' in ast.unparse(rv)):
+                continue
+            n += 1
+            rep.evaluations += 1
+            st = fx.at(nd) or frozenset()
+            key = canon(rv, nd.frame)
+            guarded = any(p and k.startswith('isinstance(%s' % key)
+                          for p, k in st) or any(
+                (not p) and k.startswith('isinstance(%s' % key)
+                for p, k in st)
+            rep.check(guarded or not producers, rule, init.qname,
+                      '`%s` on the command of the reply' % ' '.join(
+                          ast.unparse(nd.ast).split())[:40],
+                      '`%s` runs on reply.command whatever its type, but '
+                      '%s builds the reply with `%s` (text taken from a '
+                      'header, a str): the constructor of the relay error '
+                      'raises AttributeError, and the refusal is reported '
+                      'as a transient "Delivery failed" instead of with '
+                      'its own class' % (
+                          ' '.join(ast.unparse(nd.ast).split())[:40],
+                          producers[0][0].qname if producers else '',
+                          producers[0][2] if producers else ''),
+                      loc=nd.loc(), reason='behind an isinstance test' if
+                      guarded else 'every relay passes bytes literals')
+    if n < 1:
+        rep.ok(rule, 'slimta.relay.smtp.SmtpRelayError',
+               'no bytes-only / str-only method on reply.command',
+               reason='nothing to check (producers: %d)' % len(producers),
+               nontrivial=False)
